@@ -264,10 +264,19 @@ func (d *Data) ingestMappings(ctx *datastore.VersionedCtx, mappings *proto.Mappi
 		return err
 	}
 	vid := ctx.VersionID()
+	var maxLabel uint64
 	for _, mapOp := range mappings.Mappings {
 		for _, label := range mapOp.Original {
 			lmap.setMapping(vid, label, mapOp.Mapped)
 		}
+		if mapOp.Mapped > maxLabel {
+			maxLabel = mapOp.Mapped
+		}
+	}
+	// The body labels of the mappings are chosen by the client: keep the label counter above them
+	// so that they are never handed out as new labels.
+	if _, err := d.updateMaxLabel(vid, maxLabel); err != nil {
+		return err
 	}
 	return labels.LogMappings(d, ctx.VersionID(), mappings)
 }
